@@ -1,11 +1,68 @@
 import QcoVerif.Driver.Heap
+import QcoVerif.Model.Draw
 /-
-  Extension of the `heap` session protocol (Draw). `step` returns `none` for commands it does not know.
+  Extension of the `heap` session protocol (Draw, C18). `step` returns `none` for commands it does not know.
+
+    plot <c> <order|-> <labels|-> <compact 0/1> <ro> <mw> <fl> <rs>
+        order   comma separated qubit indices (`-` = none given)
+        labels  comma separated `<qubit>=<label>` (`-` = none given)
+        compact 1: draw under the durations `<ro> <mw> <fl> <rs>` (the drawing's own table, sent by the
+                harness from the live `VISUALIZATION_DURATION_REGISTRY`); 0: under the ambient ones
+      → `reject` | `undef` | `norow` |
+        `ok rows=… labels=… width=… raises=0/1 settled=0/1 comps=… hl=…`
+          comps  `;`-separated `<ComponentClass>:<width>:<x>@<row>+<x>@<row>…`, x = `num` or `num/den` (eighths)
+          hl     `;`-separated `<x>:<width>:<rowMin>:<rowMax>:<count>`
+          raises   always 0: the model never fails to draw (the implementation side reports 1 when it raised)
+          settled  a further listing of `<c>` would not change the heap (`Draw.settled` of the world left behind)
+    occupied <c>  → the occupied qubit indices in code order
 -/
 namespace Qco.Driver.HeapDraw
 
-open Qco Qco.Driver
+open Qco Qco.Driver Qco.Draw
 
-def step (_s : Sess) (_toks : List String) : Option (Sess × String) := none
+def parseLabel? (s : String) : Option (Int × String) :=
+  match s.splitOn "=" with
+  | [q, l] => q.toInt?.map (fun q => (q, l))
+  | _ => none
+
+def showFrac (x : Frac) : String :=
+  if x.den == 1 then toString x.num else s!"{x.num}/{x.den}"
+
+def showComp (c : Comp) : String :=
+  let ps := "+".intercalate (c.pivots.map (fun p => s!"{showFrac p.1}@{p.2}"))
+  s!"{c.glyph.name}:{c.width}:{if c.pivots.isEmpty then "-" else ps}"
+
+def showHl (h : Highlight) : String := s!"{h.x}:{h.width}:{h.rowMin}:{h.rowMax}:{h.count}"
+
+def showList (xs : List String) (sep : String) : String :=
+  if xs.isEmpty then "-" else sep.intercalate xs
+
+def showResult (settledAfter : Bool) : Result → String
+  | .reject => "reject"
+  | .undef => "undef"
+  | .norow => "norow"
+  | .ok d =>
+    s!"ok rows={showInts d.rows} labels={showList d.labels ","} width={d.width} " ++
+    s!"raises=0 settled={if settledAfter then 1 else 0} " ++
+    s!"comps={showList (d.comps.map showComp) ";"} hl={showList (d.highlights.map showHl) ";"}"
+
+def step (s : Sess) (toks : List String) : Option (Sess × String) :=
+  match toks with
+  | ["plot", c, order, labels, compact, a, b, cc, d] =>
+    match c.toNat?, parseList String.toInt? order, parseList parseLabel? labels, compact.toNat?,
+          a.toInt?, b.toInt?, cc.toInt?, d.toInt? with
+    | some c, some order, some labels, some compact, some a, some b, some cc, some d =>
+      if c ≥ s.circs.size then some (s, "bad-op") else
+      let args : Args := { order := order, labels := labels,
+                           compact := if compact == 1 then some ⟨a, b, cc, d⟩ else none }
+      let (w, r) := plot s.w s.circs[c]! args
+      some ({ s with w := w }, showResult (settled w w.depthFuel s.circs[c]!) r)
+    | _, _, _, _, _, _, _, _ => some (s, "bad-op")
+  | ["occupied", c] =>
+    match c.toNat? with
+    | some c => if c ≥ s.circs.size then some (s, "bad-op") else
+      some (s, showInts (occupied s.w s.circs[c]!))
+    | none => some (s, "bad-op")
+  | _ => none
 
 end Qco.Driver.HeapDraw
